@@ -141,6 +141,10 @@ class SiteModel:
                                             out += self.origins(m, r.value.elts[idx], depth + 1)
                                         elif r.value is not None:
                                             out.append("?")
+                            elif isinstance(src, ast.AST):
+                                # (k, v) = pairs[0]: an element of whatever the expression holds
+                                for o in self.origins(fn, src, depth + 1):
+                                    out.append(o if o.endswith("[*]") else o + "[*]")
                             else:
                                 out.append("?")
                         elif kind == "with":
